@@ -61,3 +61,13 @@ def _input_top_in(v, params):
 @predicate("field_in")
 def _field_in(v, params):
     return v.get(params.get("field")) in params.get("values", [])
+
+
+@predicate("either_field_in")
+def _either_field_in(v, params):
+    return any(v.get(f) in params.get("values", []) for f in params.get("fields", []))
+
+
+@predicate("field_endswith")
+def _field_endswith(v, params):
+    return str(v.get(params.get("field"), "")).endswith(params.get("suffix", "\0"))
